@@ -707,6 +707,11 @@ def depends(rep, repo):
     from checks import c07, c08
     c07.schedule_rules(rep, repo)
     c08.map_rules(rep, repo)
+    # every signal must have an op that evaluates it from the right operands (interface BUF1/INV1 ops included)
+    from checks import c01
+    from kvstatic import simops
+    simmod, init = simops.simops_init(repo)
+    c01.check_wiring(rep, simmod, init, simops.op_sites(init))
 
 
 def thorough(rep, repo):
